@@ -101,6 +101,7 @@ type World struct {
 
 	icfg    Cfg
 	icfgSet bool
+	NormalForm bool // generate every version's writes in normal form (C15)
 	// F1Exposed: a hash-memoising read ran on the working tree while a non-default initial version was pending
 	F1Exposed bool
 	// F3Exposed: a rollback of versions was carried out with the index disabled while a label exists
@@ -307,8 +308,9 @@ func (w *World) Apply(op Op) (v *Violation) {
 			w.Labels["removal"] = true
 			w.Dirty = true
 		}
-		w.WTouched[string(op.K)] = true
-		w.WOps = append(w.WOps, op)
+		if had {
+			w.WOps = append(w.WOps, op)
+		}
 	case "save":
 		return w.applySave(op)
 	case "rollback":
@@ -372,6 +374,8 @@ func (w *World) Apply(op Op) (v *Violation) {
 		w.Labels["dvf"] = true
 	case "read":
 		return w.applyRead(op)
+	case "iter":
+		return w.applyIter(op)
 	case "hop":
 		return w.applyHop(op)
 	default:
